@@ -2321,6 +2321,13 @@ class _ReadDTCType1Response(
 
             self.dtc_and_status_record = dtc_and_status_record
 
+        # e.g. reportFirstTestFailedDTC carries one record at most: the parser enforces the maximal length
+        if (
+            self._MAXIMAL_LENGTH is not None
+            and 3 + 4 * len(self.dtc_and_status_record) > self._MAXIMAL_LENGTH
+        ):
+            raise ValueError("The dtc_and_status_record contains more records than the response allows")
+
         self.dtc_status_availability_mask = dtc_status_availability_mask
 
     def dtc_and_status_record_bytes(self) -> bytes:
